@@ -77,3 +77,13 @@ PROPS["C12"] = dict(
     generators=[dict(name="C12", quick=60, thorough=4000)],
     harness=["impl"],
 )
+
+PROPS["C16"] = dict(
+    modules=["Proofs.C16", "Proofs.Findings.C16"],
+    theorems=["Goflow.C16.inv_init", "Goflow.C16.inv_step", "Goflow.C16.inv_run", "Goflow.C16.publish_once",
+              "Goflow.C16.single_system", "Goflow.C16.nothing_lost", "Goflow.Findings.C16.lost_update_possible"],
+    generators=[dict(name="C16", quick=1, thorough=1, subseeds=1)],
+    count_all=True,
+    harness=["impl"],
+    rule="every plan (interleaving of start-until-parked / release-until-returned events) for 2 and 3 workers, for the pipe's template systems and the producer's sampling systems, forced on the real code through the public factory callbacks; exhaustive",
+)
